@@ -129,6 +129,7 @@ by new; model bytes = real bytes (`save_incr`), model load = real load. Non-triv
                         c.oracle_fail("incr:prev-view", "the view of the previous revisions changed by saving", json!({"step": step}));
                     }
                     // only new objects + xref + Prev after the prefix: strict structural reader over all revisions
+                    crate::props::c03::strict_twin(c, &out);
                     match crate::strict::strict_load(&out) {
                         Ok(sd) => { if sd.revisions != step + 2 { c.oracle_fail("incr:revisions", &format!("strict reader sees {} revisions, expected {}", sd.revisions, step + 2), json!({"file": hex(&out)})); } c.count("incr.strict_ok"); }
                         Err(rule) => { c.oracle_fail(&format!("incr:strict-reject:{}", rule.split(' ').take(3).collect::<Vec<_>>().join("-")), &format!("strict reader rejects the incremental file: {}", rule), json!({"file": hex(&out)})); }
